@@ -134,6 +134,9 @@ func filterEvents(notification *Notification) []*Event {
 	events := []*Event{}
 
 	for _, event := range notification.Events {
+		if event.Target == nil {
+			continue
+		}
 		isManifest := _manifestRegexp.MatchString(event.Target.MediaType)
 		if !isManifest {
 			continue
